@@ -20,6 +20,7 @@ type Env struct {
 	inOld   bool
 	depth   int
 	lookup  func(name string) (Val, bool) // extra resolver (locals)
+	noAbs   bool                          // do not rewrite ranged quantifiers to absolute-index form
 }
 
 func (e *Env) child() *Env {
@@ -543,6 +544,37 @@ func (e *Env) quant(n *EQuant) Val {
 		lo := e.asIdx(e.tr(n.Lo))
 		hi := e.asIdx(e.tr(n.Hi))
 		rng = fmt.Sprintf("(and %s %s)", g.sle(lo, vname), g.slt(vname, hi))
+		// absolute-index form: quantify over j = off(X)+k for the first slice X indexed by k,
+		// so that facts about windows of the same backing array match syntactically.
+		if anchor := findAnchor(n.Body, n.Var); anchor != nil && !e.noAbs {
+			if xv, ok := e.tryTr(anchor); ok {
+				if _, isSl := typeUnder(xv.GT).(*types.Slice); isSl {
+					off := soff(xv.T)
+					ca := e.child()
+					ca.noAbs = false
+					ca.vars[n.Var] = Val{T: g.sub(vname, off), S: sort, GT: gt}
+					bodyA := ca.trBool(n.Body)
+					rngA := fmt.Sprintf("(and %s %s)", g.sle(g.add(off, lo), vname), g.slt(vname, g.add(off, hi)))
+					var qa string
+					if n.Forall {
+						qa = fmt.Sprintf("(forall ((%s %s)) (=> %s %s))", vname, sort, rngA, bodyA)
+					} else {
+						qa = fmt.Sprintf("(exists ((%s %s)) (and %s %s))", vname, sort, rngA, bodyA)
+					}
+					if g.mode == "int" {
+						return Val{T: qa, S: "Bool", GT: types.Typ[types.Bool]}
+					}
+					// bv: equivalent only when off+lo, off+hi and j-off do not wrap
+					lim := g.ilit64(1 << 50)
+					nlim := g.ilit64(-(1 << 50))
+					noWrap := fmt.Sprintf("(and %s %s %s %s %s %s)", g.sle(nlim, lo), g.sle(lo, lim), g.sle(nlim, hi), g.sle(hi, lim), g.sle(g.ilit64(0), off), g.sle(off, lim))
+					cn := e.child()
+					cn.noAbs = true
+					orig := cn.quant(n)
+					return Val{T: fmt.Sprintf("(ite %s %s %s)", noWrap, qa, orig.T), S: "Bool", GT: types.Typ[types.Bool]}
+				}
+			}
+		}
 	} else {
 		gt = e.resolveType(n.Typ)
 		sort = g.sortOf(gt)
@@ -660,6 +692,10 @@ func (e *Env) call(n *ECall) Val {
 		}
 		a0 := g.heapGet(g.init, "$alloc", "Int")
 		return Val{T: fmt.Sprintf("(>= %s %s)", ref, a0), S: "Bool", GT: types.Typ[types.Bool]}
+	case "sameArray":
+		a := e.tr(n.Args[0])
+		b := e.tr(n.Args[1])
+		return Val{T: fmt.Sprintf("(= (s-ref %s) (s-ref %s))", a.T, b.T), S: "Bool", GT: types.Typ[types.Bool]}
 	case "slen":
 		v := e.tr(n.Args[0])
 		return Val{T: fmt.Sprintf("(slen %s)", v.T), S: g.idx(), GT: types.Typ[types.Int]}
@@ -729,4 +765,90 @@ func (e *Env) call(n *ECall) Val {
 	}
 	e.fail("unknown function %s in contract", fname)
 	return Val{}
+}
+
+// findAnchor: the first slice-valued expression X such that X[v] occurs in body and X does not mention v.
+func findAnchor(body Expr, v string) Expr {
+	var found Expr
+	var walk func(e Expr)
+	walk = func(e Expr) {
+		if found != nil || e == nil {
+			return
+		}
+		switch n := e.(type) {
+		case *EIndex:
+			if id, ok := n.I.(*EIdent); ok && id.Name == v && !mentions(n.X, v) {
+				found = n.X
+				return
+			}
+			walk(n.X)
+			walk(n.I)
+		case *EBin:
+			walk(n.X)
+			walk(n.Y)
+		case *EUn:
+			walk(n.X)
+		case *ECall:
+			for _, a := range n.Args {
+				walk(a)
+			}
+		case *ESlice:
+			walk(n.X)
+			walk(n.Lo)
+			walk(n.Hi)
+		case *ESel:
+			walk(n.X)
+		case *EQuant:
+			if n.Var != v {
+				walk(n.Lo)
+				walk(n.Hi)
+				walk(n.Body)
+			}
+		}
+	}
+	walk(body)
+	return found
+}
+
+func mentions(e Expr, v string) bool {
+	switch n := e.(type) {
+	case nil:
+		return false
+	case *EIdent:
+		return n.Name == v
+	case *EIndex:
+		return mentions(n.X, v) || mentions(n.I, v)
+	case *EBin:
+		return mentions(n.X, v) || mentions(n.Y, v)
+	case *EUn:
+		return mentions(n.X, v)
+	case *ECall:
+		for _, a := range n.Args {
+			if mentions(a, v) {
+				return true
+			}
+		}
+		return false
+	case *ESlice:
+		return mentions(n.X, v) || mentions(n.Lo, v) || mentions(n.Hi, v)
+	case *ESel:
+		return mentions(n.X, v)
+	case *EQuant:
+		return mentions(n.Lo, v) || mentions(n.Hi, v) || mentions(n.Body, v)
+	}
+	return false
+}
+
+// tryTr translates x, reporting failure instead of panicking.
+func (e *Env) tryTr(x Expr) (v Val, ok bool) {
+	defer func() {
+		if r := recover(); r != nil {
+			if _, isU := r.(UnsupportedErr); isU {
+				ok = false
+				return
+			}
+			panic(r)
+		}
+	}()
+	return e.tr(x), true
 }
